@@ -116,7 +116,9 @@ TJoin == /\ Consume("join") /\ up[Ev.s]
 TCrash == /\ Consume("crash") /\ up[Ev.s]
           /\ up' = [up EXCEPT ![Ev.s] = FALSE] /\ crashes' = crashes + 1
           /\ UNCHANGED <<ds, cur, thr, lock, gen, ret, dupl, anns, opened, regAt, inuse, qo, nops, res, lab, prev>>
-TRestart == /\ Consume("restart") /\ ~up[Ev.s]
+\* a restart after a stop, or the clean restart the driver makes at the end of a run (idle store, datastore
+\* as it is): the model's state does not change in the second case
+TRestart == /\ Consume("restart")
             /\ up' = [up EXCEPT ![Ev.s] = TRUE]
             /\ UNCHANGED <<ds, cur, thr, lock, gen, ret, dupl, anns, opened, regAt, inuse, qo, crashes, nops, res, lab, prev>>
 TProbes == /\ Consume("probes")
